@@ -220,6 +220,7 @@ def exec_PROG(t):
 def exec_SX(t):
     s, n, f = t[0] == 's', int(t[1]), int(t[2])
     r, carrier, v = t[3], t[4], frac(t[5])
+    idx = 0
     try:
         if carrier == 'pyint':
             val = int(v)
@@ -227,18 +228,28 @@ def exec_SX(t):
             val = to_float(v)
         elif carrier == 'arr':
             val = np.array([to_float(v)])
+        elif carrier == 'arr0':
+            val = np.array([0.0, to_float(v)]); idx = 1         # behind an element that is not saturated (D60: the clip's output type)
+        elif carrier == 'list0':
+            val = [0.0, to_float(v)]; idx = 1
+        elif carrier == 'arrbig':
+            val = [to_float(v), 1e300]                          # beside a huge companion (the python-integer route also below 64 bits)
+        elif carrier == 'u64':
+            val = np.uint64(int(v))                             # D61: 2**63 and above are no int64
+        elif carrier == 'u64arr':
+            val = np.array([3, int(v)], dtype=np.uint64); idx = 1
         else:
             val = [int(v)]
         route = int(v.numerator) % 3
         if route == 0:
             x = Fxp(val, s, n, f, rounding=r, overflow='saturate')
         else:
-            x = Fxp(None if carrier in ('pyint', 'pyfloat') else [0], s, n, f, rounding=r, overflow='saturate')
+            x = Fxp(None if np.ndim(val) == 0 else [0] * len(val), s, n, f, rounding=r, overflow='saturate')
             if route == 1:
                 x(val)
             else:
                 x.set_val(val)
-        return [str(codes_of(x)[0])]
+        return [str(codes_of(x)[idx])]
     except Exception as e:
         return [exc_token(e)]
 
@@ -307,6 +318,23 @@ def generate(tier, rng):
                             ((1 << 63) + rng.getrandbits(60)) >> f, -(((1 << 63) + rng.getrandbits(60)) >> f),
                             (1 << 63) >> f, (1 << 64) >> f, -((1 << 63) >> f) - 1, (1 << 62) >> f])      # scaled value exactly at 2^63 / 2^64
             yield 'SX %s %d %d %s %s %d' % ('s' if s else 'u', n, f, r, rng.choice(['pyint', 'list']), v)
+    # words beyond the core (54 bits and more): floats whose scaled value is at / next to a bound that no float holds, in arrays and
+    # lists behind an unsaturated element or beside a huge one; NumPy unsigned integers in the window 2^63..2^64 (D60, D61)
+    for _ in range(600 if tier == 'quick' else 12000):
+        s = rng.random() < 0.5
+        n = rng.choice([53, 54, 60, 62, 63, 64, 65, 70, 96, 128]) if rng.random() < 0.7 else rng.randint(1 + int(s), 52)
+        f = rng.choice([0, 1, n // 2, n - 1, n, n + 1, rng.randint(0, n + 3)])
+        r = rng.choice(ROUNDS)
+        hi1 = (1 << (n - 1)) if s else (1 << n)
+        if rng.random() < 0.6:
+            k = rng.choice([hi1, hi1, -hi1, hi1 * 2, hi1 + (hi1 >> 20), hi1 - (hi1 >> 30), -hi1 - (hi1 >> 40), hi1 << 30])
+            v = Fraction(k, 1 << f)
+            if not is_exact_float(v):
+                continue
+            yield 'SX %s %d %d %s %s %s' % ('s' if s else 'u', n, f, r, rng.choice(['arr', 'arr0', 'list0', 'arrbig', 'pyfloat']), tok_frac(v))
+        else:
+            v = rng.choice([1 << 63, (1 << 64) - 1, (1 << 63) + rng.getrandbits(62), (1 << 63) - 1, rng.getrandbits(64)])
+            yield 'SX %s %d %d %s %s %d' % ('s' if s else 'u', n, f, r, rng.choice(['u64', 'u64arr']), v)
 
 
 def nontrivial(full_line, model):
